@@ -1,15 +1,14 @@
 import B6.Model.Containers
 import B6.Lemmas.Varint
 import B6.Lemmas.Containers
-import Std.Tactic.BVDecide
+import B6.Lemmas.Bits
 /-!
 # C09 — Low-level binary containers are lossless
 
 Theorems about `B6.Model.Containers` / `B6.Model.Varint` (hand-written models of encoding/ints.go,
 arrays.go, strings.go, uint64map.go, tied to the code by the byte-level correspondence run of
-`harness/cmd/c09`).  Proofs are in `B6/Lemmas/{Varint,Containers}.lean`; everything is kernel-only except
-`header_ok_of_layout` (the 64-bit header packing, `bv_decide`, same fact as C10 `header_roundtrip`) and what
-depends on it (`map_ok_of_builder`).
+`harness/cmd/c09`).  Proofs are in `B6/Lemmas/{Varint,Bits,Containers}.lean`; everything is kernel-only
+(propext / Classical.choice / Quot.sound), no `bv_decide`.
 -/
 namespace B6.Props.C09
 open B6.Model.Containers B6.Model.Varint B6.Model.Bits B6.Lemmas.Containers
@@ -104,17 +103,14 @@ example : stLookup (stEncode [[104, 119], [], [110, 97, 109, 101]]) 2 = some [11
 /-! ## uint64 map -/
 
 /-- every layout with `TagBits ≤ BucketBits ≤ 63` and every tag below `2^TagBits` gives an invertible
-bucket header (the 64-bit fact proved from the source text in C10 `header_roundtrip`; `bv_decide`). -/
+bucket header (the 64-bit fact proved from the source text in C10 `header_roundtrip`; kernel-only). -/
 theorem header_ok_of_layout (b t : BitVec 64) (e : Entry) (hl : layoutOK b t = true)
     (htag : e.tag < (1#64 <<< t)) : HeaderOK b t e := by
   have hb : b ≤ 63#64 ∧ t ≤ b := by
     simp only [layoutOK, Bool.and_eq_true, decide_eq_true_eq] at hl
     exact ⟨hl.2, hl.1⟩
   obtain ⟨hb1, hb2⟩ := hb
-  unfold HeaderOK headerUnpackID bucketForID headerPack headerUnpackTag
-  generalize e.id = id at *
-  generalize e.tag = tag at *
-  bv_decide (config := { timeout := 900 })
+  exact B6.Lemmas.Bits.header_roundtrip e.id e.tag b t hb1 hb2 htag
 
 /-- the layout `NewUint64MapBuilder(b, t)` really uses is always inside that domain (kernel-only). -/
 theorem builder_layout_ok (b t : BitVec 64) (hb : b ≤ 63#64) (ht : t ≤ 63#64) :
